@@ -57,6 +57,31 @@ type scenario struct {
 	WaitAt  int    `json:"wait_at"` // Wait() is called after this many submissions returned (>= len: after all)
 	Jitter  int64  `json:"jitter"`
 	Handler bool   `json:"handler"`
+	HMode   int    `json:"hmode"` // 0: the driver's handler; 1: none (the library reports the panic itself); 2: goz.LogPanic
+	PKind   int    `json:"pkind"` // panic value: 0 the task number; 1 an error whose Error method panics; 2 a Stringer whose String method panics
+}
+
+// panic values that misbehave when they are printed
+type badErr struct{ id int }
+
+func (e *badErr) Error() string { panic("Error method of the panic value") }
+
+type badStr struct{ id int }
+
+func (b badStr) String() string { panic("String method of the panic value") }
+
+type nullLogger struct{ n int32 }
+
+func (l *nullLogger) Error(args ...any) { atomic.AddInt32(&l.n, 1) }
+
+func panicID(v any) any {
+	switch x := v.(type) {
+	case *badErr:
+		return x.id
+	case badStr:
+		return x.id
+	}
+	return v
 }
 
 // wait until cond holds; false after `patience`
@@ -78,9 +103,14 @@ func runScenario(sc scenario, out func(map[string]interface{})) {
 	if eff < 1 {
 		eff = 3
 	}
-	r.log(map[string]interface{}{"ev": "new", "n": sc.Limit, "scenario": sc})
+	r.log(map[string]interface{}{"ev": "new", "n": sc.Limit, "scenario": sc, "nohandler": sc.HMode != 0})
 	l := goz.NewLimiter(sc.Limit)
-	l.SetPanicHandler(func(v any) { r.log(map[string]interface{}{"ev": "handler", "v": v}) })
+	switch sc.HMode {
+	case 0:
+		l.SetPanicHandler(func(v any) { r.log(map[string]interface{}{"ev": "handler", "v": panicID(v)}) })
+	case 2:
+		l.SetPanicHandler(goz.LogPanic(&nullLogger{}, 3))
+	}
 	gates := make([]chan struct{}, k+eff+1)
 	for i := range gates {
 		gates[i] = make(chan struct{})
@@ -96,6 +126,13 @@ func runScenario(sc scenario, out func(map[string]interface{})) {
 			r.log(map[string]interface{}{"ev": "exit", "i": i, "panic": panics})
 			atomic.AddInt32(&exited, 1)
 			if panics {
+				switch sc.PKind {
+				case 1:
+					var err error = &badErr{i}
+					panic(err)
+				case 2:
+					panic(badStr{i})
+				}
 				panic(i)
 			}
 			// other ways for a function to end without returning normally: no panic value reaches the handler,
@@ -479,7 +516,8 @@ func main() {
 	t0 := time.Now()
 	for s := 0; s < *n; s++ {
 		limits := []int{1, 2, 3, 1, 2, 4, 0, -1, -5}
-		sc := scenario{Limit: limits[rng.Intn(len(limits))], Jitter: rng.Int63(), Handler: true}
+		sc := scenario{Limit: limits[rng.Intn(len(limits))], Jitter: rng.Int63(), Handler: true,
+			HMode: []int{0, 0, 0, 1, 2}[rng.Intn(5)], PKind: []int{0, 0, 1, 2}[rng.Intn(4)]}
 		k := 1 + rng.Intn(7)
 		for i := 0; i < k; i++ {
 			sc.Panics = append(sc.Panics, rng.Intn(3) == 0)
